@@ -26,7 +26,9 @@ Containers == {"stream", "avro", "json", "text", "garbage", "empty", "junkmagic"
 \* behind a preamble that is not part of the source
 \* "class_fileobj": an open binary file object handed to an adapter CLASS (StreamReader(fh), AvroReader(fh)): the class is
 \* the container, the codec is sniffed from the leading bytes
-Namings == {"ext", "neutral", "fileobj", "stdin", "stdin_scheme", "fileobj_offset", "class_fileobj"}
+\* "ext_hidden": a path whose extension names the CONTAINER only (x.records, x.avro) while the bytes are compressed: the
+\* codec is sniffed from the leading bytes, the container follows the extension
+Namings == {"ext", "neutral", "fileobj", "stdin", "stdin_scheme", "fileobj_offset", "class_fileobj", "ext_hidden"}
 Sniffed(n) == n \in {"fileobj", "stdin", "fileobj_offset"}
 MagicLen(c) == CASE c = "gzip" -> 2 [] c = "bz2" -> 3 [] c = "lz4" -> 4 [] c = "zstd" -> 4 [] c = "none" -> 0
 ContainerMagicLen(c) == CASE c = "stream" -> 19 [] c = "avro" -> 3 [] OTHER -> 0     \* 4 length bytes + bin8 header + RECORDSTREAM\n ; "Obj"
@@ -41,7 +43,7 @@ CodecSeen == IF naming = "ext" THEN codec                                     \*
              ELSE IF peeklen >= MagicLen(codec) \/ "TrustShortPeek" \in Dev THEN codec ELSE "missed"   \* magic sniffing
 \* ---- container as seen by the reader ----
 AdapterSeen == IF CodecSeen = "missed" THEN "none"
-               ELSE IF naming \in {"ext", "stdin_scheme", "class_fileobj"} THEN (IF container \in {"stream", "avro", "json"} THEN container ELSE "stream")   \* by extension / scheme
+               ELSE IF naming \in {"ext", "stdin_scheme", "class_fileobj", "ext_hidden"} THEN (IF container \in {"stream", "avro", "json"} THEN container ELSE "stream")   \* by extension / scheme
                ELSE IF naming = "neutral" THEN "stream"                          \* no extension: the default adapter
                ELSE IF codec = "none" /\ peeklen < ContainerMagicLen(container) /\ "TrustShortPeek" \notin Dev THEN "none"   \* the same short peek
                ELSE IF container = "avro" THEN "avro" ELSE IF container = "stream" THEN "stream" ELSE "none"      \* second peek: magic
@@ -50,7 +52,7 @@ Outcome == IF AdapterSeen = "none" THEN "refused"
 \* ---- C11 ----
 \* what the property promises
 Promised == IF container \in {"text", "garbage", "empty", "junkmagic", "cutcodec"} THEN "refused"
-            ELSE IF container = "json" THEN (IF naming \in {"ext", "stdin_scheme", "class_fileobj"} THEN "records" ELSE "refused")      \* JSON is only reachable by extension / scheme
+            ELSE IF container = "json" THEN (IF naming \in {"ext", "stdin_scheme", "class_fileobj", "ext_hidden"} THEN "records" ELSE "refused")      \* JSON is only reachable by extension / scheme
             ELSE IF container = "avro" /\ naming = "neutral" THEN "refused"                      \* for paths the container follows the extension
             ELSE "records"
 Transparent == (peeklen >= 19) => Outcome = Promised
